@@ -176,6 +176,21 @@ def install(reg):
                             ("scaled", "bitmask * 2 ** i == old_bitmask")],
                        decreases="bitmask")},
     ))
+    reg.add(Contract(
+        H + "cfgkey2name",
+        params={"keyid": "int"},
+        requires=[("u32", "0 <= keyid < 2 ** 32")],
+        ensures=[("lookup", "result == cfgkey2name_spec(keyid)")],
+        raises={"UBXMessageError": "cfg_sizecode_invalid(keyid)"},
+        raises_iff={"UBXMessageError": "cfg_sizecode_invalid(keyid)"},
+        modifies=[]))
+    reg.add(Contract(
+        H + "cfgname2key",
+        params={"name": ("const", "")},
+        ensures=[("lookup", "result == cfgname2key_spec(name)")],
+        raises={"UBXMessageError": "not cfgname_known(name)"},
+        raises_iff={"UBXMessageError": "not cfgname_known(name)"},
+        modifies=[]))
     fam_v2b, fam_b2v, fam_nom = {}, {}, {}
     for T in type_constants():
         for fam, mk in ((fam_v2b, c_val2bytes), (fam_b2v, c_bytes2val), (fam_nom, c_nomval)):
